@@ -10,6 +10,8 @@ R-C01-2  padding and table have one origin at both mixed MSMs (prover: the state
 R-C01-3  prover and verifier both build the range polynomial vector d with radix 2 (conditional idiom rule)
 R-C01-5  (= R-C03-6) honest proofs verify in every batch order: the per-proof loop of the verifier carries no state between members
          other than the gate's accumulators, the result vector and the weight RNG
+R-C01-7  (= R-C11-4/all-slots) every slot of the blinding-generator table receives a derived point: a slot left at its placeholder (the
+         identity) makes the transcript refuse the generators of every extension degree that uses it
 R-C01-4  the prover refuses no valid witness: its witness-dependent rejections are exactly the five documented checks, with the right
          constants and quantifiers (= R-C06-1/2; an honest prover that is refused yields no accepted proof)
 """
@@ -20,7 +22,7 @@ LEVEL_TEXT = ('Static analysis; decides ONLY structural necessary conditions of 
               '(polynomial normal form) and the one-origin rule for precomputed table, padding and vector lengths. It does NOT decide completeness itself.'
               " Also runs C06's guard rules (an honest prover that is refused yields no accepted proof), the rule that the largest member sizes a batch "
               "whatever the order, and the rule that the verifier core rejects on lengths, decoding failures and the gate only (no test of its own on "
-              "the content of a statement, such as the capacity of its parameters).")
+              "the content of a statement, such as the capacity of its parameters), and that every blinding-generator slot is filled.")
 ASSUMPTIONS = ['induction recorded in DESIGN.md: T_i = z^(2*2^i), S_i = sum_{j=1..2^i} z^(2j)']
 RULE_TEXT = 'one obligation per structural clause; non-trivial = decided from a normal form or argument term'
 
@@ -46,6 +48,9 @@ def run(ctx):
     from . import C03
     shared(ctx, C03.per_member_independence, 'R-C03-6', 'R-C01-5')
     verifier_content_tests(ctx, 'R-C01-6')
+    # R-C01-7: every blinding generator is a derived point (a slot left at the identity is refused by the transcript: no proof at that degree)
+    from . import C11
+    shared(ctx, C11.r4, 'R-C11-4', 'R-C01-7', only=('/all-slots',))
 
 
 def _outside_len(sv):
